@@ -31,6 +31,9 @@ Inductive uniq_from : list str -> list str -> list str -> Prop :=
 
 Section WithReserved.
 Variable reserved : list str.
+(* The property demands that scalar (op) table keeps the names like table (op) scalar
+   ([routed] = true).  On the pinned tree the reflected operators drop them ([routed] = false). *)
+Variable routed : bool.
 
 Fixpoint rule_v (e : vexpr) : vname :=
   match e with
@@ -56,6 +59,7 @@ with rule_t (e : texpr) : tnames :=
       | _ => rule_t t ++ rule_t u
       end
   | TScalar t => rule_t t
+  | TRScalar t => if routed then rule_t t else map (fun _ => None) (rule_t t)
   | TTable t u => map (fun p => keep_left_iff (fst p) (snd p)) (combine (rule_t t) (rule_t u))
   | TCmpS t => map (fun _ => None) (rule_t t)
   | TAgg _ keys aggs apply t =>
